@@ -520,11 +520,23 @@ pub fn parse<S: Signals>(env: &Env<S>, args: Vec<Field>) -> Result<Command, Erro
             break;
         }
 
+        // If the first character that is not a flag option (`l` or `v`) is not
+        // an option taking an argument (`s` or `n`) either, the argument is not
+        // a cluster of options. It may only be a signal name or number in the
+        // obsolete syntax, as in `-vtalrm` and `-lost`, so the leading `l` and
+        // `v` must not be taken as options.
+        let bare_signal = options
+            .chars()
+            .find(|c| !matches!(c, 'l' | 'v'))
+            .is_some_and(|c| !matches!(c, 's' | 'n'));
+
         let mut chars = options.chars();
         while let Some(option) = chars.next() {
             match option {
                 // POSIX defines neither the `-n` nor the `-v` option.
-                'n' | 'v' if portable => return Err(Error::NonPortableOption(option, arg)),
+                'n' | 'v' if portable && !bare_signal => {
+                    return Err(Error::NonPortableOption(option, arg));
+                }
 
                 's' | 'n' => {
                     let remainder = chars.as_str();
@@ -589,10 +601,10 @@ pub fn parse<S: Signals>(env: &Env<S>, args: Vec<Field>) -> Result<Command, Erro
                     }
                     break;
                 }
-                'l' => {
+                'l' if !bare_signal => {
                     list = Some(arg.origin.clone());
                 }
-                'v' => {
+                'v' if !bare_signal => {
                     verbose = Some(arg.origin.clone());
                 }
                 _ => {
